@@ -50,7 +50,6 @@ LibMsgs(KK, ms) == [i \in 1..Len(ms) |-> IF KK.cmd THEN CmdHeader \o ms[i] ELSE 
 GuardsOK(ev) == /\ "guards" \in DOMAIN ev.obs => ev.obs.guards = 1
                 /\ "dec_guards" \in DOMAIN ev.obs => ev.obs.dec_guards = 1
 IsPrefix(p, s) == Len(p) <= Len(s) /\ TakeN(s, Len(p)) = p
-Untouched(d)   == \A i \in 1..Len(d) : d[i] = 238       \* the driver's fill: the call did not write the target
 
 \* the finished output o holds exactly the messages ms
 OutputOK(KK, o, ms) ==
@@ -89,7 +88,6 @@ RPos(ev) == fedn - (ev.obs.len - ev.obs.curr)
 PeekQOK(ev) ==
   /\ ev.obs.over = 0           \* nothing written behind the caller's target (a peek may decode the current block in place, C03)
   /\ \/ lost
-     \/ Untouched(ev.obs.data)
      \/ IF pend # <<-1>> THEN IsPrefix(ev.obs.data, pend)
         ELSE LET v == D!Verdict(K, stream, fs, fedn) IN
              CASE v.st = "ok" -> IsPrefix(ev.obs.data, v.msg)
